@@ -21,6 +21,12 @@ PROPERTY_FILE = 'C12/Property.v'
 LEVEL = 'proof'
 ALLOWED_AXIOMS = ()
 TRUSTED_BASE = [
+    'C12/Plan.v (Bootloader.flash as a plan of _internal_flash calls: platform/type filtering, target list, soft-device '
+    'requirement logic, info cache replaced after the reboot; _flash_flash as it is: every firmware artifact, the target list '
+    'is not consulted; '
+    'Cloader.read_flash) is hand-written and tied on every run: whole flash(zip, targets) sessions with generated '
+    'manifests (1-4 artifacts: stm32/nrf51 firmware, bootloader+softdevice, deck, foreign platform/type/target), '
+    'target lists, cf1/cf2 protocol versions, version fields, warm/cold boot, and read_flash runs with scripted reply fates',
     'C12/Session.v (parse of the info packet in _update_info, its retry loop, the nRF51 bootloader+softdevice branch of '
     'Bootloader.flash: erase page + override page flash_pages - len//page_size) is hand-written and tied on every run: '
     '_update_info on scripted receive events, and whole Bootloader.flash(zip, []) sessions (real zip/manifest parsing, real '
@@ -34,6 +40,15 @@ TRUSTED_BASE = [
     'uses it, not from firmware source; it exists twice (Gallina, fakes/c12_target.py) and both are compared in every case',
 ]
 ASSUMPTIONS = [
+    'deck flashing itself (_flash_deck_incrementally, the firmware restart around it) and _get_boot_delay need a running '
+    'firmware with the memory subsystem; they are stubbed in the sessions: only the decision to enter the deck phase '
+    '(warm boot, target list) and the artifacts handed to it are checked',
+    'which artifacts flash(file, targets) selects is not part of the property text: the firmware phase flashes every MCU '
+    'firmware artifact and the soft-device step runs whatever the list names (code as is, modelled as is, recorded as '
+    'observations in design.d/C12.md)',
+    'read_flash exactness assumes an honest device: a packet that has the form of a read reply for this target is the '
+    'device\'s own reply to the request it answers (rf_honest); the device returns 25 bytes per request, fewer only at '
+    'the end of its flash',
     'UPLOAD DELIVERY RELIES ON THE LINK LAYER: buffer-load packets (0x14) are assumed to reach the target, in order. The '
     'client has no check of its own: upload_buffer gets no acknowledgement, _internal_flash never calls read_flash and '
     'there is no CRC/verify step anywhere in cflib/bootloader, and the bootloader link is opened with safelink=0, so '
@@ -52,28 +67,27 @@ ASSUMPTIONS = [
     'floating point equals integer division (checked by the tie on boundary values)',
     'terminate_flashing_cb is not set; progress reporting has no effect on what is sent',
 ]
-PROVED = ('Eighteen theorems (C12/Property.v), all closed under the global context. Flashing (model of _internal_flash / '
-          'upload_buffer / write_flash + target model; every image length >= 1, every 16-bit geometry, start/override page, '
-          'either target, every memory content, stale queue and script of flash-write fates): success puts the image in '
-          'flash exactly at start*page_size (honest acknowledgements); no flash byte outside the occupied pages changes, no '
-          'command leaves buffer or flash, the other target is untouched; too big => refused with nothing sent; a negative '
-          'start/override page => refused or struct.error with only buffer loads sent and no flash changed; upload_buffer '
-          'frames carry 25-byte payloads at consecutive offsets concatenating to the page; every frame <= 32 bytes; load '
-          'frames of a run are the per-page uploads in order, page i to buffer i mod buffer_pages, each once, and the chunks '
-          'partition the image; write_flash sends 1..6 identical commands, six silent attempts or one negative answer fail; '
-          'a failed run ends with an error and the failed flash-write as last frame. Where: _update_info decodes the info '
-          'packet into page_size/buffer_pages/flash_pages/start_page exactly, reports only what a received matching packet '
-          'said, and asks at most six times; the nRF51 sd+bl override page flash_pages - len//page_size makes a whole-page '
-          'image fit exactly up to the end of the flash and any other length fail the size check; a successful sd+bl branch '
-          'leaves the image byte for byte in the last len/page_size pages.')
-NOT_PROVED = ('The decision logic of Bootloader.flash (which artifacts, whether the soft device is flashed, version comparison) '
-              'and zip/manifest parsing are exercised by the session tie and oracle but not modelled; reset/reconnect is '
-              'played by the fake. Loss of buffer-load packets, a target whose real geometry differs from the reported one, and replies '
+PROVED = ('Twenty-six theorems (C12/Property.v), all closed under the global context. Single image: exact placement, '
+          'nothing outside its pages, no out-of-range command, other target untouched, refusal before any write, negative '
+          'override raises before any flash-write, frame sizes, per-page loads exactly once in order, bounded retry then abort. '
+          'Geometry: info packet decoded exactly, only a received matching packet is reported, at most six requests. nRF51 '
+          'bootloader+softdevice: override page fits exactly to the flash end or is refused; successful branch leaves the '
+          'image in the last pages. Whole flash(zip, targets), all manifests / target lists / caches: the plan is either an '
+          'exception before any write, or the firmware artifacts on the geometry held at entry, or the soft-device '
+          'step, a reboot, and the firmware artifacts on the geometry learnt AFTER the reboot; the firmware phase takes '
+          'every firmware artifact of the manifest, once each, in manifest order (the target list only decides whether it '
+          'runs); calls start in plan order; a target no call addresses is untouched; on every target nothing outside the '
+          'union of the started calls\' page ranges changes; a stale cache across the reboot is refuted by a concrete '
+          'witness. read_flash: a returned buffer equals the device page byte for byte for every page size and reply-loss '
+          'pattern, at most six requests per chunk.')
+NOT_PROVED = ('zip/manifest parsing (incl. the legacy manifest-v1 rule that adds the distro s110 binary), flash_full / '
+              'start_bootloader / _get_boot_delay (need a firmware-side Crazyflie), deck flashing, reset/reconnect (played by '
+              'the fake) are not modelled; final content when two selected images overlap on one target is not stated. Loss of buffer-load packets, a target whose real geometry differs from the reported one, and replies '
               'forged or delayed across write commands (a positive acknowledgement of an earlier command arriving after '
               'the flush of the next) are outside the model; bytes of the last flash page beyond the image end take '
               'whatever the buffer held (inside the occupied range, allowed by the statement).')
 
-HEADER = ('From CF Require Import Common.Bytes C12.Model C12.Session.\nOpen Scope Z_scope.\n'
+HEADER = ('From CF Require Import Common.Bytes C12.Model C12.Session C12.Plan.\nOpen Scope Z_scope.\n'
           'Fixpoint zr (a : Z) (n : nat) : list Z := match n with O => [] | S k => a :: zr (a + 1) k end.\n'
           'Definition mem (n salt : Z) : list Z := map (fun a => ((a * 7 + salt) * 13 + a / 8) mod 251) (zr 0 (Z.to_nat n)).\n'
           'Definition dg1 (p b : Z) (l : list Z) : Z := fold_left (fun h v => (h * b + v + 1) mod p) l 7.\n'
@@ -92,6 +106,12 @@ HEADER = ('From CF Require Import Common.Bytes C12.Model C12.Session.\nOpen Scop
           '  match parse_info tid p with POk i => (i_ps i, i_bp i, i_fp i, i_sp i) | _ => (0, 0, 0, 0) end.\n'
           'Definition fl (tid : Z) (g : Z * Z * Z * Z) (img : list Z) (s : list att) :=\n'
           '  let \'(ps, bp, fp, sp) := g in internal_flash tid ps bp fp sp None img [] s.\n'
+          'Definition ci (tid : Z) (p : pkt) : option cinfo :=\n'
+          '  match parse_info tid p with POk i => Some (mkC (i_ps i) (i_bp i) (i_fp i) (i_sp i) (i_ver i)) | _ => None end.\n'
+          'Definition scode (o : souts) : Z := match o with SDone => 0 | SFlash x => outcome_code x | SExc KeyError => 10\n'
+          '  | SExc UnknownSoftDevice => 11 | SExc ConflictingRequirements => 12 | SExc CannotFlashNrf => 13\n'
+          '  | SExc OneSdblOnly => 14 | SExc InvalidVersion => 15 end.\n'
+          'Definition rcode (r : rres) : list Z := match r with RNone => [0] | RRaiseStruct => [1] | RBuf b => 2 :: b end.\n'
           'Definition fimg (n s1 s2 s3 : Z) : list Z := map (fun a => (((a * s1 + s2) * (a + s3)) / 7) mod 256) (zr 0 (Z.to_nat n)).\n')
 
 STM, NRF = 0xFF, 0xFE
@@ -769,11 +789,372 @@ def gen_session_case(rng):
     return c
 
 
+# ------------------------------------------------------------------------------------------------ whole flash(): artifact plan, selection, reboot
+PLAT = {'cf1': 1, 'cf2': 2, 'deck': 3, 'cf9': 10}
+TGT = {'stm32': 255, 'nrf51': 254, 'bcAI:gap8': 1000, 'bcLighthouse4': 1001, 'bcAI:esp': 1002}
+TYP = {'fw': 1, 'bootloader+softdevice': 2, 'bootloader': 10}
+SDV = {'sd-s110': 110, 'sd-s130': 130, 'sd-s140': 140}
+FEXN = {10: 'KeyError', 11: 'UnknownSoftDevice', 12: 'ConflictingRequirements', 13: 'CannotFlashNrf', 14: 'OneSdblOnly',
+        15: 'InvalidVersion'}
+
+
+def run_plan_session(case):
+    """Bootloader.flash(zip, targets) for a generated manifest / target list.  Deck flashing and the firmware restart
+    around it are stubbed (recorded); everything else is the real code on the simulated link."""
+    import os
+    import cflib.bootloader as blmod
+    from cflib.bootloader import Bootloader, Target
+    from cflib.crtp.crtpstack import CRTPPacket
+    clock = fs.VClock()
+    tg = build_targets(case)
+    link = fs.SessionLink(tg, case.get('script', []), CRTPPacket, {int(k): v for k, v in case['reports'].items()}, clock)
+    path = os.path.join(coqrun.BUILD, 'c12_plan_%d.zip' % os.getpid())
+    os.makedirs(coqrun.BUILD, exist_ok=True)
+    files = []
+    for k, f in enumerate(case['files']):
+        md = {'platform': f['platform'], 'target': f['target'], 'type': f['type'], 'release': f['release'], 'repository': 'x'}
+        if f.get('requires'):
+            md['requires'] = list(f['requires'])
+        if f.get('provides'):
+            md['provides'] = list(f['provides'])
+        files.append(('f%d.bin' % k, f['image'], md))
+    make_zip(path, files)
+    rec = {'deck_calls': [], 'restart': 0}
+    code, detail, bl = 0, '', None
+    old_time = blmod.time
+    try:
+        blmod.time = clock
+        with _patched(clock, lambda uri: link), contextlib.redirect_stdout(io.StringIO()):
+            bl = Bootloader('radio://0/0/2M/E7E7E7E7E7')
+            bl._cload.link = link
+            bl.warm_booted = bool(case.get('warm'))
+
+            def deck_stub(artifacts, targets, start_index, enable_console_log=False, boot_delay=0.0):
+                rec['deck_calls'].append(([bytes(a.content) for a in artifacts], [tuple(t[:3]) for t in targets]))
+                return -1
+            bl._flash_deck_incrementally = deck_stub
+            bl.reset_to_firmware = lambda boot_delay=0.0: rec.__setitem__('restart', rec['restart'] + 1) or True
+            bl.start_bootloader = lambda warm_boot=False, cf=None: True
+            bl.close = lambda: None
+            try:
+                ok = bl._cload.check_link_and_get_info()
+                bl.protocol_version = bl._cload.protocol_version
+                if ok and bl.protocol_version == 0x10:
+                    bl._cload.request_info_update(NRF)
+                bl.flash(path, [Target(p, t, ty, [], []) for (p, t, ty) in case['select']])
+            except ft.HarnessAbort as e:
+                code, detail = 98, repr(e)
+            except struct.error as e:
+                code, detail = 3, repr(e)
+            except IndexError as e:
+                code, detail = 4, repr(e)
+            except ZeroDivisionError as e:
+                code, detail = 5, repr(e)
+            except KeyError as e:
+                code, detail = 10, repr(e)
+            except Exception as e:
+                m = e.args[0] if e.args and isinstance(e.args[0], str) else ''
+                if type(e) is Exception and e.args == ('Not enough space to flash the image file',):
+                    code = 1
+                elif type(e) is Exception and e.args == ():
+                    code = 2
+                elif m.startswith('Unknown soft device'):
+                    code = 11
+                elif m.startswith('Cannot flash nRF51, conflicting'):
+                    code = 12
+                elif m.startswith('Cannot flash nRF51: We have'):
+                    code = 13
+                elif 'ne and only one bootloader+softdevice' in m:
+                    code = 14
+                elif type(e).__name__ == 'InvalidVersion':
+                    code = 15
+                else:
+                    code, detail = 99, repr(e)
+    finally:
+        blmod.time = old_time
+        try:
+            os.remove(path)
+        except OSError:
+            pass
+    return code, detail, link, tg, rec
+
+
+def plan_obs(case):
+    code, detail, link, tg, rec = run_plan_session(case)
+    out = [code]
+    for (h, d, deliv) in link.sent:
+        if h == 0xFF and len(d) >= 2 and d[1] in (0x14, 0x18):
+            out += [1 if deliv else 0, 1 + len(d), h] + list(d)
+    for t in tg:
+        out += list(t.buf) + list(t.flash) + [1 if t.oob else 0]
+    out += [1 if link.resets else 0, 1 if rec['deck_calls'] else 0]
+    return out, code, detail, link, tg, rec
+
+
+def _sel(t):
+    return 'mkSel %d %d %d' % (PLAT[t[0]], TGT[t[1]], TYP[t[2]])
+
+
+def _img2(f):
+    if f.get('formula'):
+        assert fimg(*f['formula']) == list(f['image'])
+        return '(fimg %d %d %d %d)' % tuple(f['formula'])
+    return coqrun.zlist(f['image'])
+
+
+def plan_term(case):
+    rep = {int(k): v for k, v in case['reports'].items()}
+
+    def cache(phase):
+        def one(tid):
+            r = rep[tid][min(phase, len(rep[tid]) - 1)]
+            return 'ci %d %s' % (tid, _pkt(fs.info_packet(tid, r[0], r[1], r[2], r[3], rest=r[4])))
+        pv = rep[STM][0][4][0] if rep[STM][0][4] else 0xFF
+        # start_bootloader asks for the nRF51 info only on protocol version 0x10; the fresh Cloader after the reboot always does
+        nrf = one(NRF) if (pv == 0x10 or phase > 0) else 'None'
+        return '(mkCache (%s) (%s))' % (one(STM), nrf)
+    pv = rep[STM][0][4][0] if rep[STM][0][4] else 0xFF
+    platform = 2 if pv == 0x10 else 1
+    arts = []
+    for f in case['files']:
+        rel = [int(x) for x in f['release'].split('.')]
+        arts.append('mkArt (%s) %s %s %s (%d, %d, %d)' % (
+            _sel((f['platform'], f['target'], f['type'])), _img2(f),
+            coqrun.zlist([SDV[x] for x in f.get('requires', [])]), coqrun.zlist([SDV[x] for x in f.get('provides', [])]),
+            rel[0], rel[1], rel[2]))
+    sels = '[%s]' % '; '.join(_sel(t) for t in case['select'])
+    scr = '[%s]' % '; '.join(_att(a) for a in case.get('script', []))
+    tgs = []
+    for k, t in enumerate(case['targets']):
+        tgs.append('(mkT %d %d %d %d (mem %d %d) (mem %d %d) false)' % (
+            t['id'], t['ps'], t['bp'], t['fp'], t['ps'] * t['bp'], 3 + k, t['ps'] * t['fp'], 101 + k))
+    return ('let r := run_plan (flash_plan %d %s %s [%s] %s) %s in '
+            'let \'(o, s, tr, cs, rb) := r in '
+            '[scode o] ++ trace_obs tr ++ '
+            'concat (map (fun T => let T1 := deliver T tr in t_buf T1 ++ t_flash T1 ++ [if t_oob T1 then 1 else 0]) [%s]) ++ '
+            '[if rb then 1 else 0; if (match o with SDone => true | _ => false end) && deck_phase %s %s then 1 else 0]'
+            % (platform, cache(0), cache(1), '; '.join(arts), sels, scr, '; '.join(tgs),
+               coqrun.coq_bool(bool(case.get('warm'))), sels))
+
+
+def gen_plan_case(rng):
+    ps = rng.choice([4, 8, 16, 25])
+    nbp, sbp = rng.choice([1, 1, 2]), rng.choice([2, 3, 10])
+    sps = rng.choice([8, 16, 26])
+    sfp = rng.randrange(8, 18)
+    ssp = rng.choice([0, 1, 4])
+    nfp = 108 + rng.randrange(6, 20)
+    nsp1 = rng.choice([88, 88, 88, 108, 108, 100])
+    pv = rng.choice([0x10] * 12 + [0x00, 0x01])
+
+    def ver(plus_ok=True):
+        r = rng.random()
+        if r < 0.45:
+            return []
+        a, b, c = rng.choice([(2023, 11, 0), (1, 2, 3), (2024, 2, 1)])
+        hi = (a >> 8) | (0x80 if plus_ok and rng.random() < 0.06 else 0)
+        return [a & 0xFF, hi, b, c]
+    rest0 = [pv] + ver()
+    rest1 = [pv] + ver()
+    nsp2 = rng.choice([108, 108, 108, 88])
+    reports = {str(NRF): [[ps, nbp, nfp, nsp1, rest0], [ps, nbp, nfp - rng.choice([0, 0, 2]), nsp2, rest1]],
+               str(STM): [[sps, sbp, sfp, ssp, rest0], [sps, sbp, sfp, rng.choice([ssp, ssp, ssp + 1]), rest1]]}
+    targets = [{'id': STM, 'ps': sps, 'bp': sbp, 'fp': sfp, 'sp': ssp}, {'id': NRF, 'ps': ps, 'bp': nbp, 'fp': nfp, 'sp': nsp1}]
+    c = {'targets': targets, 'reports': reports, 'warm': rng.random() < 0.4,
+         'script': rand_script(rng, rng.choice([STM, NRF]), 3) if rng.random() < 0.25 else []}
+
+    def image(n):
+        f = [max(1, n), rng.randrange(1, 1000), rng.randrange(1000), rng.randrange(1000)]
+        return {'formula': f, 'image': fimg(*f)}
+    kinds = []
+    nfiles = rng.choice([1, 2, 2, 3, 3, 4])
+    pool = ['stm_fw', 'nrf_fw', 'sdbl', 'deck', 'stm_fw', 'nrf_fw', 'sdbl', 'deck', 'stm_fw2', 'other_plat', 'odd_type',
+            'odd_target', 'sdbl_stm']
+    files = []
+    for _ in range(nfiles):
+        k = rng.choice(pool)
+        rel = rng.choice(['2023.11.0', '1.2.3', '2024.2.1'])
+        if k in ('stm_fw', 'stm_fw2'):
+            avail = (sfp - ssp) * sps
+            f = dict(platform='cf2', target='stm32', type='fw', release=rel,
+                     **image(rng.choice([1, sps, sbp * sps + 1, avail, avail + sps + 1, rng.randrange(1, avail + 1)])))
+        elif k == 'nrf_fw':
+            avail = (nfp - 108) * ps
+            f = dict(platform='cf2', target='nrf51', type='fw', release=rel,
+                     requires=[rng.choice(['sd-s130', 'sd-s130', 'sd-s110', 'sd-s140'])],
+                     **image(rng.choice([1, ps, avail, rng.randrange(1, avail + 1)])))
+            if rng.random() < 0.1:
+                f['requires'] = f['requires'] + [rng.choice(['sd-s130', 'sd-s110'])]
+        elif k in ('sdbl', 'sdbl_stm'):
+            pages = rng.randrange(1, 6)
+            n = pages * ps if rng.random() < 0.8 else pages * ps + rng.randrange(1, ps)
+            f = dict(platform='cf2', target='nrf51' if k == 'sdbl' else 'stm32', type='bootloader+softdevice', release=rel,
+                     provides=[rng.choice(['sd-s130', 'sd-s130', 'sd-s130', 'sd-s110'])], **image(n))
+        elif k == 'deck':
+            f = dict(platform='deck', target=rng.choice(['bcAI:gap8', 'bcLighthouse4']), type='fw', release=rel,
+                     **image(rng.randrange(1, 40)))
+        elif k == 'other_plat':
+            f = dict(platform='cf9', target='stm32', type='fw', release=rel, **image(rng.randrange(1, 30)))
+        elif k == 'odd_type':
+            f = dict(platform='cf2', target='stm32', type='bootloader', release=rel, **image(rng.randrange(1, 30)))
+        else:
+            f = dict(platform='cf2', target='bcAI:esp', type='fw', release=rel, **image(rng.randrange(1, 30)))
+        files.append(f)
+    c['files'] = files
+    r = rng.random()
+    if r < 0.4:
+        sel = []
+    else:
+        cands = [(f['platform'], f['target'], f['type']) for f in files] + [('cf2', 'stm32', 'fw'), ('cf2', 'nrf51', 'fw'),
+                                                                             ('deck', 'bcAI:gap8', 'fw'), ('cf1', 'stm32', 'fw')]
+        sel = [list(rng.choice(cands)) for _ in range(rng.choice([1, 1, 2]))]
+    c['select'] = sel
+    return c
+
+
+
+# ------------------------------------------------------------------------------------------------ Cloader.read_flash
+def run_read_flash(case):
+    """case: {'t': target dict, 'ps_client', 'page', 'fates'} -> observation [0] None / [1] struct.error / [2]+bytes, then frames."""
+    from cflib.bootloader.cloader import Cloader
+    from cflib.bootloader.boottypes import Target
+    from cflib.crtp.crtpstack import CRTPPacket
+    t = case['t']
+    dev = ft.Tgt(t['id'], t['ps'], t['bp'], t['fp'], buf=_mem(t['ps'] * t['bp'], 3), flash=_mem(t['ps'] * t['fp'], 101))
+    link = fs.ReadLink(dev, case['fates'], CRTPPacket)
+    cl = Cloader(None)
+    cl.link = link
+    ti = Target(t['id'])
+    ti.page_size = case['ps_client']
+    cl.targets[t['id']] = ti
+    result = None
+    try:
+        r = cl.read_flash(addr=t['id'], page=case['page'])
+        head = [0] if r is None else [2] + list(r)
+        result = None if r is None else list(r)
+    except ft.HarnessAbort:
+        head = [98]
+    except struct.error:
+        head = [1]
+    except Exception as e:
+        head = [99, repr(e)]
+    out = head + [len(link.fates)]
+    for f in link.sent:
+        out += [len(f)] + f
+    link.result = result
+    return out, dev, link
+
+
+def _fate(f):
+    if f == 'lost':
+        return 'RLost'
+    if f == 'good':
+        return 'RGood'
+    return '(RWrong %s)' % _pkt(f[1])
+
+
+def read_term(case):
+    t = case['t']
+    return ('let \'(r, fs, tr) := read_flash (mkT %d %d %d %d (mem %d 3) (mem %d 101) false) %d %d %s [%s] in '
+            'rcode r ++ [Z.of_nat (length fs)] ++ concat (map (fun f : frame => zlen f :: f) tr)'
+            % (t['id'], t['ps'], t['bp'], t['fp'], t['ps'] * t['bp'], t['ps'] * t['fp'], t['id'], case['ps_client'],
+               coqrun.z(case['page']), '; '.join(_fate(f) for f in case['fates'])))
+
+
+def gen_read_case(rng, honest_only=False):
+    tid = rng.choice([STM, NRF])
+    ps = rng.choice([1, 2, 24, 25, 26, 49, 50, 51, 64, 75, 100, 128, 256, 1024]) if rng.random() < 0.9 else rng.randrange(1, 300)
+    fp = rng.randrange(1, 6) if ps < 300 else rng.randrange(1, 3)
+    t = {'id': tid, 'ps': ps, 'bp': 1, 'fp': fp, 'sp': 0}
+    page = rng.choice([0, fp - 1, fp - 1, rng.randrange(fp)])
+    if not honest_only and rng.random() < 0.05:
+        page = rng.choice([fp, fp + 3, 65535, 65536, -1])
+    ps_client = ps if honest_only or rng.random() < 0.9 else rng.choice([0, ps + 7, max(0, ps - 3)])
+    nchunks = (ps_client + 24) // 25
+
+    def reply(pg, off):
+        a = pg * ps + off
+        return [0xFF, [tid, 0x1C] + list(struct.pack('<HH', pg & 0xFFFF, off & 0xFFFF)) + list(_mem(ps * fp, 101)[a:a + 25])]
+
+    def wrong():
+        k = rng.randrange(8)
+        if k == 0:
+            return ['wrong', reply(page if 0 <= page < fp else 0, 25 * rng.randrange(0, nchunks + 1))]   # stale genuine reply
+        if k == 1:
+            return ['wrong', reply(rng.randrange(fp), 0)]                                                 # another page
+        if k == 2 and not honest_only:
+            return ['wrong', [0xFF, [tid, 0x1C, 0, 0]]]                                                   # truncated: struct.error
+        if k == 3:
+            return ['wrong', [0xFF, [tid ^ 1, 0x1C, 0, 0, 0, 0, 1, 2, 3]]]
+        if k == 4:
+            return ['wrong', [0x00, [tid, 0x1C, 0, 0, 0, 0, 1, 2, 3]]]
+        if k == 5:
+            return ['wrong', ack(tid) if not honest_only else [0xFF, [tid, 0x18, 1, 0, 0, 0]]]
+        if k == 6 and not honest_only:
+            return ['wrong', [0xFF, [tid, 0x1C] + [rng.randrange(256) for _ in range(rng.randrange(0, 12))]]]
+        return 'lost'
+    mode = rng.randrange(6)
+    if mode <= 1:
+        fates = []
+    elif mode == 2:
+        fates = ['good'] * rng.randrange(0, nchunks + 1) + ['lost'] * rng.choice([1, 4, 5, 6, 7])
+    elif mode == 3:
+        fates = ['good'] * rng.randrange(0, nchunks + 1) + ['lost'] * 5 + ['good']
+    else:
+        fates = [rng.choice(['good', 'good', 'lost', wrong(), wrong()]) for _ in range(rng.randrange(1, 3 * nchunks + 4))]
+    return {'t': t, 'ps_client': ps_client, 'page': page, 'fates': fates}
+
+
+def check_read_case(case):
+    """Property text: with an honest device (every read reply that arrives is the device's own for the page/offset it
+    names) read_flash returns None or exactly the device's page; undisturbed, it returns the page."""
+    obs, dev, link = run_read_flash(case)
+    t, page, ps = case['t'], case['page'], case['ps_client']
+
+    def fail(cls, expected, observed, detail_):
+        return {'class': cls, 'case': {'kind': 'read', 'case': case}, 'expected': expected, 'observed': observed,
+                'detail': detail_}
+    if obs[0] in (98, 99):
+        return fail('read_flash_unbounded_or_crashed', 'a page or None', obs[:2], '')
+    want = list(dev.flash[page * t['ps']:page * t['ps'] + ps])
+    if obs[0] == 2:
+        got = link.result
+        if got != want:
+            k = next((i for i in range(min(len(got), len(want))) if got[i] != want[i]), min(len(got), len(want)))
+            return fail('read_flash_wrong_bytes', 'flash[page*ps : (page+1)*ps]', {'first_wrong_byte': k, 'len': len(got)},
+                        'read_flash returned bytes that are not the device\'s page')
+    if not case['fates'] and obs[0] != 2:
+        return fail('read_flash_failed_undisturbed', 'the page', obs[:1], 'no fault injected but no page returned')
+    nreq = sum(1 for f in link.sent if len(f) == 7 and f[2] == 0x1C)
+    if nreq > 6 * max(1, (ps + 24) // 25):
+        return fail('read_flash_unbounded_or_crashed', '<= 6 requests per chunk', nreq, '')
+    return None
+
+
+def _short(c):
+    d = {k: v for k, v in c.items() if k not in ('files', 'script')}
+    d['files'] = [[f['platform'], f['target'], f['type'], len(f['image']), f.get('requires'), f.get('provides'), f['release']]
+                  for f in c.get('files', [])]
+    d['script_len'] = len(c.get('script', []))
+    return d
+
+
+def corpus_plan_entries():
+    import glob
+    import json
+    import os
+    out = []
+    for p in sorted(glob.glob(os.path.join(coqrun.VERIF, 'corpus', 'C12', 'plan', '*.json'))):
+        d = json.load(open(p))
+        out.append((d['case'], d.get('class_when_found')))
+    return out
+
+
 def tie_extra(ctx):
     """update_info cases and whole-session cases; returns (n, disagreements, distribution, samples)."""
     dis = []
     rng = ctx.rng
-    icases = [gen_info_case(rng) for _ in range(ctx.scale(250, 3000))]
+    icases = [gen_info_case(rng) for _ in range(ctx.scale(150, 3000))]
     terms = [info_term(c) for c in icases]
     exp = [run_update_info(c) for c in icases]
     dist = {'update_info_outcome': {}, 'session_outcome': {}, 'session_with_sd': 0}
@@ -783,7 +1164,7 @@ def tie_extra(ctx):
     for bi, mv in compare(terms, exp, 'c12i', max(10, len(terms) // 8 + 1)):
         dis.append({'what': '_update_info: model and implementation differ', 'case': icases[bi],
                     'model': mv if mv is None else mv[:40], 'impl': exp[bi][:40]})
-    scases = [gen_session_case(rng) for _ in range(ctx.scale(120, 1500))]
+    scases = [gen_session_case(rng) for _ in range(ctx.scale(50, 1500))]
     terms, exp2, keep = [], [], []
     for c in scases:
         obs, code, detail, link, tg, bl = session_obs(c)
@@ -805,15 +1186,53 @@ def tie_extra(ctx):
             k = next((i for i, (a, b) in enumerate(zip(mv, exp2[bi])) if a != b), min(len(mv), len(exp2[bi])))
             d.update({'first_difference_at': k, 'model': mv[max(0, k - 4):k + 12], 'impl': exp2[bi][max(0, k - 4):k + 12]})
         dis.append(d)
-    samples = [{'update_info': {'tid': icases[0]['tid'], 'events': icases[0]['events'][:2], 'impl': exp[0][:8]}}]
-    return len(icases) + len(keep), dis, dist, samples
+    # whole flash() with generated manifests and target lists
+    pcases = [c for (c, f) in corpus_plan_entries()] + [gen_plan_case(rng) for _ in range(ctx.scale(130, 2000))]
+    terms, exp3, keep3 = [], [], []
+    dist['plan_outcome'] = {}
+    dist['plan_with_selection'] = 0
+    dist['plan_rebooted'] = 0
+    for c in pcases:
+        obs, code, detail, link, tg, rec = plan_obs(c)
+        if code >= 98:
+            dis.append({'what': 'Bootloader.flash raised an unexpected exception', 'case': _short(c), 'impl': detail})
+            continue
+        terms.append(plan_term(c))
+        exp3.append(obs)
+        keep3.append(c)
+        k = CODES.get(code) or FEXN.get(code, str(code))
+        dist['plan_outcome'][k] = dist['plan_outcome'].get(k, 0) + 1
+        dist['plan_with_selection'] += bool(c['select'])
+        dist['plan_rebooted'] += bool(link.resets)
+    for bi, mv in compare(terms, exp3, 'c12p', max(10, len(terms) // 8 + 1)):
+        d = {'what': 'Bootloader.flash (artifact plan): model and implementation differ', 'case': _short(keep3[bi]),
+             'impl_outcome': exp3[bi][0]}
+        if mv is not None:
+            k = next((i for i, (a, b) in enumerate(zip(mv, exp3[bi])) if a != b), min(len(mv), len(exp3[bi])))
+            d.update({'first_difference_at': k, 'model': mv[max(0, k - 4):k + 12], 'impl': exp3[bi][max(0, k - 4):k + 12],
+                      'model_outcome': mv[0] if mv else None})
+        dis.append(d)
+    # read_flash
+    rcases = [gen_read_case(rng) for _ in range(ctx.scale(150, 2500))]
+    terms = [read_term(c) for c in rcases]
+    exp4 = [run_read_flash(c)[0] for c in rcases]
+    dist['read_flash_outcome'] = {}
+    for e in exp4:
+        k = {0: 'None', 1: 'struct.error', 2: 'page'}.get(e[0], str(e[0]))
+        dist['read_flash_outcome'][k] = dist['read_flash_outcome'].get(k, 0) + 1
+    for bi, mv in compare(terms, exp4, 'c12r', max(10, len(terms) // 8 + 1)):
+        dis.append({'what': 'read_flash: model and implementation differ', 'case': rcases[bi],
+                    'model': mv if mv is None else mv[:30], 'impl': exp4[bi][:30]})
+    samples = [{'update_info': {'tid': icases[0]['tid'], 'events': icases[0]['events'][:2], 'impl': exp[0][:8]}},
+               {'flash_plan': _short(keep3[-1]) if keep3 else None}]
+    return len(icases) + len(keep) + len(keep3) + len(rcases), dis, dist, samples
 
 
 
 # ------------------------------------------------------------------------------------------------ tie
 def tie(ctx):
     _raise_stack_limit()
-    cases = gen_cases(ctx, ctx.scale(450, 8000), ctx.scale(5, 60))
+    cases = gen_cases(ctx, ctx.scale(320, 8000), ctx.scale(4, 60))
     terms, exp, meta = [], [], []
     dis = []
     dist = {'outcome': {}, 'page_size': {}, 'buffer_pages': {}, 'addr': {}, 'override': 0, 'faulty_script': 0,
@@ -1153,6 +1572,111 @@ def check_session(case):
     return None
 
 
+def check_plan_session(case):
+    """Property text for flash(zip, targets) on the final flash images of all targets: every flashed firmware artifact
+    lies exactly at the start page its target reported at that time (after the reboot if there was one), nothing outside the
+    union of the flashed images' page ranges (plus the bootloader+softdevice step) is written on any target, frames are
+    <= 32 bytes, and without faults every page is written once, in manifest order."""
+    files = case['files']
+    if any(f['type'] == 'bootloader+softdevice' and f['target'] != 'nrf51' for f in files):
+        return None            # a soft device addressed to another MCU: exercised by the tie only
+    code, detail, link, tg, rec = run_plan_session(case)
+    init = build_targets(case)
+
+    def fail(cls, expected, observed, detail_):
+        return {'class': cls, 'case': {'kind': 'plan', 'case': case}, 'expected': expected, 'observed': observed,
+                'detail': detail_}
+    if code >= 98:
+        return fail('session_unexpected_exception', 'success or a flashing error', detail, '')
+    if any(t.oob for t in tg):
+        return fail('command_out_of_range', 'all commands inside buffer and flash', 'out-of-range command', '')
+    for (h, d, deliv) in link.sent:
+        if 1 + len(d) > 32:
+            return fail('frame_too_long', '<= 32 bytes', 1 + len(d), 'a frame exceeds header + 31 bytes')
+    tids18 = [bytes(d) for (h, d, deliv) in link.sent if h == 0xFF and len(d) >= 2 and d[1] == 0x18]
+    run = 0
+    for k, d in enumerate(tids18):
+        run = run + 1 if k and tids18[k - 1] == d else 1
+        if run > 16:
+            return fail('write_retry_unbounded', '<= 16 attempts', run, 'flash-write retried too often')
+    rep = {int(k): v for k, v in case['reports'].items()}
+    pv = rep[STM][0][4][0] if rep[STM][0][4] else 0xFF
+    platform = 'cf2' if pv == 0x10 else 'cf1'
+    phase = 1 if link.resets else 0
+    sel = [tuple(x) for x in case['select']]
+    tid_of = {'stm32': STM, 'nrf51': NRF}
+    fw = [f for f in files if f['platform'] == platform and f['type'] != 'bootloader+softdevice']
+    psel = [x for x in sel if x[0] == platform]
+    # "flashed artifacts" = what the code's plan flashes: every MCU firmware artifact of the platform, provided the
+    # firmware phase runs at all (empty list or a target of this platform named).  WHICH targets the list names is not
+    # part of the property text (observation recorded in design.d/C12.md), so it is not judged here.
+    wanted = fw if (not sel or psel) else []
+    allowed = {STM: [], NRF: []}
+
+    def rng_of(f, tid, ph):
+        r = rep[tid][min(ph, len(rep[tid]) - 1)]
+        ps, fp, sp = r[0], r[2], r[3]
+        npg = (len(f['image']) + ps - 1) // ps
+        return sp * ps, (sp + npg) * ps, len(f['image']) <= (fp - sp) * ps
+    n0 = rep[NRF][0]
+    for f in files:
+        if f['platform'] == platform and f['type'] == 'bootloader+softdevice':
+            ps, fp, sp = n0[0], n0[2], n0[3]
+            allowed[NRF].append((sp * ps, (sp + 1) * ps, None))
+            ln = len(f['image'])
+            if ln % ps == 0 and ln // ps <= fp:
+                allowed[NRF].append(((fp - ln // ps) * ps, fp * ps, None))
+    for f in wanted:
+        tid = tid_of.get(f['target'])
+        if tid is not None:
+            lo, hi, fits = rng_of(f, tid, phase)
+            if fits:
+                allowed[tid].append((lo, hi, f))
+    for t, t0 in zip(tg, init):
+        ok = bytearray(len(t.flash))
+        for (lo, hi, _) in allowed[t.tid]:
+            for a in range(max(0, lo), min(hi, len(ok))):
+                ok[a] = 1
+        for a in range(len(t.flash)):
+            if not ok[a] and t.flash[a] != t0.flash[a]:
+                return fail('plan_wrote_outside', 'flash unchanged outside the selected images\' page ranges',
+                            {'target': t.tid, 'byte': a, 'page': a // t.ps},
+                            'a flash page that belongs to none of the selected images was written')
+    honest = all(att_honest(a, STM) and att_honest(a, NRF) for a in case.get('script', []))
+    if code == 0 and honest:
+        for t in tg:
+            mine = [(lo, hi, f) for (lo, hi, f) in allowed[t.tid] if f is not None]
+            for (lo, hi, f) in mine:
+                if any(o is not f and not (ohi <= lo or hi <= olo) for (olo, ohi, o) in allowed[t.tid]):
+                    continue           # overlapping images: the later one wins, not checked here
+                img = bytes(f['image'])
+                if bytes(t.flash[lo:lo + len(img)]) != img:
+                    return fail('artifact_not_at_reported_start_page', 'image at start_page(reported at that time) * page_size',
+                                {'target': t.tid, 'at_byte': lo, 'artifact': [f['platform'], f['target'], f['type']],
+                                 'rebooted': bool(link.resets)},
+                                'flash() succeeded but a selected image is not where its target\'s current report puts it')
+                if not case.get('script'):
+                    pages = [p for (b, fpg, n) in t.writes for p in range(fpg, fpg + n) if lo <= p * t.ps < hi]
+                    if sorted(pages) != sorted(set(pages)):
+                        return fail('artifact_flashed_twice', 'each page of a selected image written once', sorted(pages), '')
+        if not case.get('script'):
+            exp_seq = [NRF, NRF] if link.resets else []
+            exp_seq += [tid_of[f['target']] for f in wanted if f['target'] in tid_of]
+            tids = [d[0] for (h, d, deliv) in link.sent if h == 0xFF and len(d) >= 2 and d[1] == 0x18]
+            coll = [x for k, x in enumerate(tids) if k == 0 or tids[k - 1] != x]
+            ecoll = [x for k, x in enumerate(exp_seq) if k == 0 or exp_seq[k - 1] != x]
+            if coll != ecoll:
+                return fail('artifact_order_wrong', ecoll, coll, 'targets are not flashed in manifest order')
+        wanted_decks = [f for f in files if f['platform'] == 'deck']
+        deck_expected = bool(case.get('warm')) and (not sel or any(x[0] == 'deck' for x in sel))
+        if bool(rec['deck_calls']) != deck_expected:
+            return fail('deck_phase_wrong', deck_expected, bool(rec['deck_calls']), 'deck update entered/skipped wrongly')
+        if rec['deck_calls'] and sorted(rec['deck_calls'][0][0]) != sorted(bytes(f['image']) for f in wanted_decks):
+            return fail('deck_artifacts_wrong', 'all deck artifacts of the file', len(rec['deck_calls'][0][0]), '')
+    return None
+
+
+
 def oracle_extra(ctx, deep, rng):
     fails, n = [], 0
     for tid in (STM, NRF):
@@ -1163,13 +1687,66 @@ def oracle_extra(ctx, deep, rng):
                 r = check_info_case(g, tid, rest)
                 if r and not any(x['class'] == r['class'] for x in fails):
                     fails.append(r)
-    for _ in range(ctx.scale(150, 1500) * (3 if deep else 1)):
+    for _ in range(ctx.scale(60, 1500) * (3 if deep else 1)):
         c = gen_session_case(rng)
         n += 1
         r = check_session(c)
         if r and not any(x['class'] == r['class'] for x in fails):
             fails.append(r)
+    plan_cases = [c for (c, f) in corpus_plan_entries()] + [gen_plan_case(rng) for _ in range(ctx.scale(250, 3000) * (2 if deep else 1))]
+    for c in plan_cases:
+        n += 1
+        r = check_plan_session(c)
+        if r and not any(x['class'] == r['class'] for x in fails):
+            fails.append(shrink_plan(r))
+    for _ in range(ctx.scale(300, 3000)):
+        c = gen_read_case(rng, honest_only=True)
+        n += 1
+        r = check_read_case(c)
+        if r and not any(x['class'] == r['class'] for x in fails):
+            fails.append(r)
     return n, fails
+
+
+def shrink_plan(failure):
+    """Drop files / selections / script / image bytes while the same class fails."""
+    import copy
+    cls = failure['class']
+    best = failure
+    for _ in range(30):
+        c = best['case']['case']
+        cands = []
+        for k in range(len(c['files'])):
+            c2 = copy.deepcopy(c)
+            del c2['files'][k]
+            if c2['files']:
+                cands.append(c2)
+        for k in range(len(c['select'])):
+            c2 = copy.deepcopy(c)
+            del c2['select'][k]
+            cands.append(c2)
+        if c.get('script'):
+            c2 = copy.deepcopy(c)
+            c2['script'] = []
+            cands.append(c2)
+        for k, f in enumerate(c['files']):
+            if len(f['image']) > 1:
+                c2 = copy.deepcopy(c)
+                c2['files'][k]['image'] = c2['files'][k]['image'][:max(1, len(f['image']) // 2)]
+                c2['files'][k].pop('formula', None)
+                cands.append(c2)
+        progressed = False
+        for c2 in cands:
+            try:
+                r = check_plan_session(c2)
+            except Exception:
+                r = None
+            if r is not None and r['class'] == cls:
+                best, progressed = r, True
+                break
+        if not progressed:
+            break
+    return best
 
 
 
@@ -1196,7 +1773,7 @@ def oracle(ctx, deep=False):
                 fails.append(shrink(r))
     import time
     t0 = time.time()
-    budget = 600 if ctx.thorough else 40
+    budget = 600 if ctx.thorough else 30
     for k, c in enumerate(cases):
         el = time.time() - t0
         if el > budget or (fails and el > budget / 4):
@@ -1265,4 +1842,8 @@ def replay(payload, ctx):
         return check_info_case(tuple(c['g']), c['tid'], c['rest'])
     if c.get('kind') == 'session':
         return check_session(c['case'])
+    if c.get('kind') == 'plan':
+        return check_plan_session(c['case'])
+    if c.get('kind') == 'read':
+        return check_read_case(c['case'])
     return check_case(c['case'], c.get('fault'))
